@@ -1,6 +1,6 @@
 (* C07 — a batch is isolated as the union of its controller and everything inside it.
    Statements only; proofs in BatchProps.v. *)
-From Shred Require Import Base SrcParams Plan PlanObs PlanLemmas PlanInv PlanLoc PlanBuild PlanProps Exec ExecProps BatchProps ExecObs ExecPlan TraceOracles ExecOracles ParSeq ParSeqProps TreeAccept NestedObs NestedExec NestedAccept.
+From Shred Require Import Base SrcParams Plan PlanObs PlanLemmas PlanInv PlanLoc PlanBuild PlanProps Exec ExecProps BatchProps ExecObs ExecPlan TraceOracles ExecOracles ParSeq ParSeqProps TreeAccept NestedObs NestedExec NestedAccept AcceptComplete NestedComplete.
 
 (* [eff_reads r] / [eff_writes r]: what the controller declares plus what every registration
    inside the batch declares, recursively.  The access lists that add_batch hands to the
@@ -74,6 +74,12 @@ Theorem C07_nested_acceptor_sound :
   forall n rs tr, wf rs -> naccept n rs tr = true -> ntr n rs tr.
 Proof. exact naccept_sound. Qed.
 Print Assumptions C07_nested_acceptor_sound.
+
+(* ... and complete: the nested acceptor decides the nested trace set (it never rejects a nested run of the model) *)
+Theorem C07_nested_acceptor_decides_the_nested_trace_set :
+  forall n rs tr, wf rs -> (naccept n rs tr = true <-> ntr n rs tr).
+Proof. exact naccept_iff. Qed.
+Print Assumptions C07_nested_acceptor_decides_the_nested_trace_set.
 
 (* the trace set is inhabited by a genuinely nested, interleaved, repeated run *)
 Theorem C07_nested_traces_exist :
